@@ -377,8 +377,9 @@ class Repo:
             except SyntaxError as e:
                 raise AnalysisError(f"cannot parse {rel}: {e}")
             if os.environ.get("TLSA_NO_LIFT") != "1":
-                from .normalise import append_loop_to_comprehension, counted_while_to_for, expand_dict_dispatch, fold_dict_lookup, lambda_lift, unroll_table_loops
+                from .normalise import append_loop_to_comprehension, counted_while_to_for, expand_dict_dispatch, fold_dict_lookup, lambda_lift, search_loop_to_membership, unroll_table_loops
 
+                search_loop_to_membership(tree)
                 fold_dict_lookup(tree)
                 expand_dict_dispatch(tree)
                 counted_while_to_for(tree)
